@@ -23,9 +23,10 @@ structure AState where
   snap : Option (List String)   -- the ids `mHash` was computed from (every slot is hashed); none = mHash == 0
   counter : Nat
   hasModel : Bool
+  other : List String := []   -- the ids of a second model object of the same shape, not attached to the annotator
   deriving Repr
 
-def init : AState := ⟨[], [], none, 0xb4da55, false⟩
+def init : AState := ⟨[], [], none, 0xb4da55, false, []⟩
 
 def nonEmpty (ids : List String) : List String := ids.filter (· ≠ "")
 
@@ -110,9 +111,14 @@ def idsOf (s : AState) : AState × List String :=
 def duplicateIds (s : AState) : AState × List String :=
   let (s, l) := idsOf s; (s, l.filter fun x => s.cache.count x > 1)
 
+/-- `setModel(otherModel)`: attach the other model object (same shape, its own ids) -/
+def switchModel (s : AState) : AState :=
+  setModel { s with ids := s.other, other := s.ids } s.other
+
 /-- operations of a history -/
 inductive Op
   | setModel (ids : List String)
+  | switch
   | edit (i : Nat) (id : String)
   | assignAll
   | assignIds (kind : Nat)
@@ -123,6 +129,7 @@ inductive Op
 
 def step (refresh : Bool) (sh : Shape) (s : AState) : Op → AState
   | .setModel ids => setModel s ids
+  | .switch => switchModel s
   | .edit i id => edit s i id
   | .assignAll => (assignAll refresh sh s).1
   | .assignIds k => (assignIds refresh sh s k).1
